@@ -62,10 +62,10 @@ P = {
          'iterhashcomplement (strict and non-strict) and iterhashintersection (real AST) are proved for ALL pairs of tables with the hybrid rule over a symbolic Counter and ghost counting functions occA / cntB: the carried invariant is bcnt[v] = max(0, cntB(v) - occA(v, i)) (strict: = cntB(v)) for every value v, and row i of a is emitted, once and unchanged, iff occA(i) >= cntB(a[i]) (complement), cntB(a[i]) == 0 (strict), occA(i) < cntB(a[i]) (intersection): a\'s order, multiset a - b / a & b, and complement + intersection partition a because the keep-predicates are complementary; b is never written (C03), header of a first. The SORT-based itercomplement (strict and non-strict) and iterintersection merge loops are proved with the same keep-predicates for all pairs of sorted tables: inductive invariant (every consumed b-row <= the current a-row; #consumed b-rows equal to it = min(occA, cntB)), per-step judgements incl. the step that leaves the loop and the rows left over when b runs out; the sorts that establish the precondition are wired on the whole row with the caller\'s strategy arguments (C11.wiring.complement / intersection / diff).'
          ' Bounded stand-in for the rest (diff as two complements, recordcomplement/recorddiff field alignment, agreement of the hash and sort variants end to end): ' 'complement/intersection/diff/record*/hash* vs collections.Counter arithmetic for all pairs of small rectangular tables; partition law.',
          TB + ' collections.Counter through its contract (T6); row equality = Python tuple equality, read as Comparable equality in the merge proofs (rows without nested sequences); sortedness of the inputs is the contract of the sort (C05).', TECH_D),
- 'C09': (True, 'exploration',
-         'Grouping/aggregation operators vs a dictionary-based reference grouping (ascending key order, input order inside groups, conservation of counts and sums) x spec forms x buffersize/presorted.'
-         ' Proved sub-claim (does not decide the conservation clauses on its own): ' "Group-level half proved for all tables: the keyed drivers itersimpleaggregate (single key) and iterfold emit exactly one row per group delivered by rowgroupby, (iterrowreduce likewise) carrying the unwrapped key and the aggregation / reduce applied to exactly the values of that group's rows in order (itertools.groupby through its contract T2: consecutive non-empty runs); header once. That the sorted input is split into one group per distinct key in ascending order (T2 + the sort), the multi-field form, mergeduplicates, merge and the counting functions are NOT proved.",
-         BNOTE, TECH_D),
+ 'C09': (True, 'proof',
+         "Group-level proof for all tables: the keyed drivers itersimpleaggregate, itermultiaggregate (rows-aggregate and field-aggregate forms), iterfold and iterrowreduce emit exactly one row per group delivered by rowgroupby, carrying the unwrapped key and the aggregation / reduce applied to exactly the values of that group's rows, in order, output fields in the order given; header once; key-less aggregation of an empty table is the documented single row (C20 instances). The groups themselves: itertools.groupby through its contract T2 (consecutive maximal runs of == keys, whose concatenation is the input: every row in exactly one group) over the key-sorted input (sort kernel C05, key function C04.comparable_itemgetter, wiring C11.wiring.aggregate/rowreduce/fold/groupselect*/mergeduplicates: every operator sorts on its own key with the caller's strategy)."
+         ' Bounded stand-in for the rest (mergeduplicates / merge conflict sets, counting functions, compound keys, end-to-end conservation of counts and sums): ' 'Grouping/aggregation operators vs a dictionary-based reference grouping (ascending key order, input order inside groups, conservation of counts and sums) x spec forms x buffersize/presorted.',
+         TB + ' T2 (itertools.groupby) is a trusted standard-library contract; that sorted input + T2 give one group per distinct key in ascending order is a meta-level composition, exercised by the bounded check; single key field in the proved part.', TECH_D),
  'C10': (True, 'proof',
          'iterduplicates and iterunique (carried-state loops) are proved with the hybrid rule: an inductive invariant pins previous / previous_yielded / prev_comp_ne as functions of the position and the rows emitted per iteration are proved to be exactly: duplicates emits row k (and once its predecessor) iff their keys are ==, unique emits a row iff its key differs from both neighbours; with keys contiguous (sorted) this is the partition by key multiplicity, in order.'
          ' Bounded stand-in for the rest: ' 'duplicates/unique/distinct/conflicts/isunique vs key-multiplicity reference for all small rectangular tables x key forms incl. header-only, zero-field.',
